@@ -23,6 +23,12 @@ func main() {
 		runMath(*seed, *n, *dir)
 	case "tick":
 		runTick(*seed, *n, *dir)
+	case "epochs":
+		runEpochs(*seed, *n, *dir)
+	case "accum":
+		runAccum(*seed, *n, *dir)
+	case "sumtree":
+		runSumTree(*seed, *n, *dir)
 	default:
 		fmt.Fprintln(os.Stderr, "unknown engine", *engine)
 		os.Exit(2)
